@@ -155,6 +155,11 @@ class Parser:
                     self.next()
             self.expect(")")
             return ("tuple", ts) if ts else ("unit",)
+        if self.at("_"):
+            self.next()
+            return ("infer",)
+        if self.at("impl") or self.at("dyn"):
+            self.next()
         name = self.ident()
         while self.at("::"):
             self.next()
@@ -279,7 +284,11 @@ class Parser:
 
     # -- expressions
     def expr(self, nostruct=False):
-        return self.binexpr(0, nostruct)
+        e = self.binexpr(0, nostruct)
+        if self.at("..="):
+            self.next()
+            return ("range", e, self.binexpr(0, nostruct), True)
+        return e
 
     def binexpr(self, level, nostruct):
         if level == len(BINPREC):
@@ -335,7 +344,16 @@ class Parser:
                     e = ("field", e, name)
             elif self.at("["):
                 self.next()
-                i = self.expr()
+                if self.at(".."):
+                    self.next()
+                    i = ("rangeto", self.expr())
+                else:
+                    i = self.expr()
+                    if self.at(".."):
+                        self.next()
+                        if not self.at("]"):
+                            raise TransError("bounded slice range")
+                        i = ("rangefrom", i)
                 self.expect("]")
                 e = ("index", e, i)
             elif self.at("("):
@@ -379,6 +397,39 @@ class Parser:
             return ("tuple", es)
         if self.at("{"):
             return self.block()
+        if self.at("move"):
+            self.next()
+        if self.at("|") or self.at("||"):
+            params = []
+            if self.at("||"):
+                self.next()
+            else:
+                self.next()
+                while not self.at("|"):
+                    pp = self.pat1()
+                    pt = None
+                    if self.at(":"):
+                        self.next()
+                        pt = self.ty()
+                    params.append((pp, pt))
+                    if self.at(","):
+                        self.next()
+                self.expect("|")
+            rt = None
+            if self.at("->"):
+                self.next()
+                rt = self.ty()
+            body = self.block() if self.at("{") else self.expr()
+            return ("closure", params, rt, body)
+        if self.at("["):
+            self.next()
+            es = []
+            while not self.at("]"):
+                es.append(self.expr())
+                if self.at(","):
+                    self.next()
+            self.expect("]")
+            return ("array", es)
         if self.at("if"):
             return self.ifexpr()
         if self.at("match"):
@@ -770,11 +821,17 @@ STRUCTS.update({
 })
 # structures that exist only in the translation (TzVerif.Src, SrcPrelude.lean); everything else is TzVerif.Model
 SRC_STRUCTS = {"MonthWeekDay", "JulianDayCheckInfos", "MonthWeekDayCheckInfos"}
-LEAN_TYPE_NAME = {"TimeZoneRef": "TzVerif.Model.TimeZone"}
+LEAN_TYPE_NAME = {"TimeZoneRef": "TzVerif.Model.TimeZone", "FoundDateTimeKind": "TzVerif.Model.Found"}
 # tuple structs with one field: the field itself
 NEWTYPES = {"Julian1WithoutLeap": "u16", "Julian0WithLeap": "u16"}
 # enums with payloads: variant -> (lean constructor, payload kinds)
+STRUCT_VARIANTS = {
+    # enum struct-variant literal / pattern -> (lean constructor, field order)
+    ("FoundDateTimeKind", "Skipped"): ("TzVerif.Model.Found.skipped", ["before_transition", "after_transition"]),
+}
+
 ENUMS = {
+    "FoundDateTimeKind": {"Normal": ("TzVerif.Model.Found.normal", ["DateTime"])},
     "RuleDay": {"Julian1WithoutLeap": ("TzVerif.Model.RuleDay.julian1", ["Julian1WithoutLeap"]), "Julian0WithLeap": ("TzVerif.Model.RuleDay.julian0", ["Julian0WithLeap"]),
                 "MonthWeekDay": ("TzVerif.Model.RuleDay.mwd", ["MonthWeekDay"])},
     "TransitionRule": {"Fixed": ("TzVerif.Model.TransitionRule.fixed", ["LocalTimeType"]), "Alternate": ("TzVerif.Model.TransitionRule.alternate", ["AlternateTime"])},
@@ -844,7 +901,137 @@ def paren(s):
 def strip_ref(t):
     while t and t[0] == "ref":
         t = t[1]
+    if t and t[0] == "infer":
+        return None
     return t
+
+
+class Normaliser:
+    """AST rewriting before translation: `?` inside larger expressions is hoisted into `let`s, `x.push(v)` on the
+    output list becomes an assignment, `expr?;` becomes `let _ = expr?;`, the pair-swap idiom becomes one call."""
+
+    def __init__(self, out_param):
+        self.out = out_param
+        self.n = 0
+
+    def fresh(self):
+        self.n += 1
+        return "__t%d" % self.n
+
+    def block(self, blk):
+        if blk is None:
+            return None
+        stmts = []
+        for st in blk[1]:
+            stmts.extend(self.stmt(st))
+        tail = blk[2]
+        if tail is not None:
+            lets, tail = self.hoist(tail, top=True)
+            stmts.extend(lets)
+        return ("block", stmts, tail)
+
+    def body(self, e):
+        """a branch body (block or bare expression)"""
+        if e is None:
+            return None
+        if e[0] == "block":
+            return self.block(e)
+        lets, e2 = self.hoist(e, top=True)
+        if lets:
+            return ("block", lets, e2)
+        return e2
+
+    def stmt(self, st):
+        k = st[0]
+        if k == "let":
+            if st[3] is None:
+                return [st]
+            lets, init = self.hoist(st[3], top=True)
+            return lets + [("let", st[1], st[2], init)]
+        if k == "assign":
+            lets, rhs = self.hoist(st[3], top=False)
+            return lets + [("assign", st[1], st[2], rhs)]
+        if k == "while":
+            return [("while", st[1], self.block(st[2]))]
+        if k == "for":
+            it, body = st[2], st[3]
+            # for chunk in X.chunks_exact_mut(2) { chunk.swap(0, 1); }
+            if it[0] == "mcall" and it[2] == "chunks_exact_mut" and st[1][0] == "pvar":
+                b = body[1] + ([("expr", body[2])] if body[2] is not None else [])
+                if (len(b) == 1 and b[0][0] == "expr" and b[0][1][0] == "mcall" and b[0][1][2] == "swap"
+                        and b[0][1][1] == ("path", [st[1][1]]) and [x for x in b[0][1][3]] == [("lit", 0), ("lit", 1)] and it[3] == [("lit", 2)]):
+                    return [("assign", it[1], "=", ("swappairs", it[1]))]
+                raise TransError("chunks_exact_mut loop that is not the pair swap")
+            lets, it2 = self.hoist(it, top=False)
+            return lets + [("for", st[1], it2, self.block(body))]
+        if k == "expr":
+            e = st[1]
+            if e[0] == "mcall" and e[2] == "push" and self.out and e[1] == ("path", [self.out]):
+                lets, v = self.hoist(e[3][0], top=False)
+                return lets + [("assign", e[1], "=", ("pushed", e[1], v))]
+            if e[0] == "try":
+                lets, inner = self.hoist(e[1], top=False)
+                return lets + [("let", ("pwild",), None, ("try", inner))]
+            lets, e2 = self.hoist(e, top=True)
+            return lets + [("expr", e2)]
+        return [st]
+
+    def hoist(self, e, top):
+        """-> (let statements, expression without nested `?`).  `top`: e is the whole initialiser / tail, where a
+        `?` directly at the top, and branching constructs, are handled by the translator itself."""
+        if e is None or not isinstance(e, tuple):
+            return [], e
+        k = e[0]
+        if k == "try":
+            lets, inner = self.hoist(e[1], top=False)
+            if top:
+                return lets, ("try", inner)
+            v = self.fresh()
+            return lets + [("let", ("pvar", v), None, ("try", inner))], ("path", [v])
+        if k == "block":
+            return [], self.block(e)
+        if k == "if":
+            lets, c = self.hoist(e[1], top=False)
+            return lets, ("if", c, self.body(e[2]), self.body(e[3]) if e[3] is not None else None)
+        if k == "iflet":
+            lets, sc = self.hoist(e[2], top=False)
+            return lets, ("iflet", e[1], sc, self.body(e[3]), self.body(e[4]) if e[4] is not None else None)
+        if k == "match":
+            lets, sc = self.hoist(e[1], top=False)
+            return lets, ("match", sc, [(p, g, self.body(b)) for p, g, b in e[2]])
+        if k == "closure":
+            return [], ("closure", e[1], e[2], self.body(e[3]))
+        if k == "return":
+            if e[1] is None:
+                return [], e
+            lets, v = self.hoist(e[1], top=False)
+            return lets, ("return", v)
+        # generic: left-to-right over the children
+        lets = []
+        out = [k]
+        for x in e[1:]:
+            if isinstance(x, tuple) and x and isinstance(x[0], str):
+                l2, x2 = self.hoist(x, top=False)
+                lets += l2
+                out.append(x2)
+            elif isinstance(x, list):
+                xs = []
+                for y in x:
+                    if isinstance(y, tuple) and y and isinstance(y[0], str):
+                        l2, y2 = self.hoist(y, top=False)
+                        lets += l2
+                        xs.append(y2)
+                    elif isinstance(y, tuple) and len(y) == 2 and isinstance(y[0], str) and isinstance(y[1], tuple):
+                        # (field, expr) of a struct literal
+                        l2, y2 = self.hoist(y[1], top=False)
+                        lets += l2
+                        xs.append((y[0], y2))
+                    else:
+                        xs.append(y)
+                out.append(xs)
+            else:
+                out.append(x)
+        return lets, tuple(out)
 
 
 class Fn:
@@ -856,10 +1043,12 @@ class Fn:
         self.owner = qname.split(".")[0] if "." in qname else None
         self.params = params
         self.ret = self.resolve(ret)
-        self.body = body
         self.cfg = cfg
+        self.out = cfg.get("out_param")
+        self.body = Normaliser(self.out).block(body)
         self.loop_no = 0
         self.post = []
+        self.sclosures = {}
 
     def resolve(self, t):
         if t is None:
@@ -922,6 +1111,10 @@ class Fn:
         if k == "tuple":
             parts = [self.ex(x, env) for x in e[1]]
             return ("(" + ", ".join(p[0] for p in parts) + ")", ("tuple", [p[1] for p in parts]))
+        if k == "index" and e[2][0] == "rangefrom":
+            s, t = self.ex(e[1], env)
+            i, _ = self.ex(e[2][1], env)
+            return ("(List.drop (Int.toNat %s) %s)" % (i, s), strip_ref(t) if t else None)
         if k == "index":
             s, t = self.ex(e[1], env)
             i, _ = self.ex(e[2], env)
@@ -947,6 +1140,10 @@ class Fn:
             name = e[1][-1]
             if name == "Self":
                 name = self.owner
+            if len(e[1]) >= 2 and (e[1][-2], name) in STRUCT_VARIANTS:
+                ctor, order = STRUCT_VARIANTS[(e[1][-2], name)]
+                vals = dict(e[2])
+                return ("(%s %s)" % (ctor, " ".join(self.ex(vals[f], env)[0] for f in order)), ("named", e[1][-2]))
             if name not in STRUCTS:
                 raise TransError("struct literal %s" % name)
             fs = []
@@ -959,6 +1156,27 @@ class Fn:
             return (self.value_block(e, env), self.ty_of(e, env))
         if k == "unreachable":
             return ("default", None)
+        if k == "pushed":
+            l, t = self.ex(e[1], env)
+            v, _ = self.ex(e[2], env)
+            return ("(%s ++ [%s])" % (l, v), t)
+        if k == "swappairs":
+            l, t = self.ex(e[1], env)
+            return ("(Src.swapPairs %s)" % l, t)
+        if k == "array":
+            parts = [self.ex(x, env) for x in e[1]]
+            return ("[" + ", ".join(p[0] for p in parts) + "]", ("slice", parts[0][1] if parts else None))
+        if k == "closure":
+            # a closure that assigns none of its captured variables: a Lean `fun`
+            if [n for n in self.assigned(e[3], []) if n in env]:
+                raise TransError("closure that mutates its environment in expression position")
+            env1 = dict(env)
+            saved = self.post
+            self.post = []
+            ps = [paren(self.pat(pp, env1, self.resolve(pt))) for pp, pt in e[1]]
+            self.post = saved
+            body = self.value_block(e[3], env1) if e[3][0] in ("block", "if", "iflet", "match") else self.ex(e[3], env1)[0]
+            return ("(fun %s => %s)" % (" ".join(ps), body), ("closure", self.ty_of(e[3], env1)))
         if k == "getlast":
             s, t = self.ex(e[1], env)
             t = strip_ref(t) if t else None
@@ -1097,9 +1315,12 @@ class Fn:
 
     def mcall(self, e, env):
         recv, name, args = e[1], e[2], e[3]
-        s, t = self.ex(recv, env)
+        if recv[0] == "range":
+            s, t = "", None
+        else:
+            s, t = self.ex(recv, env)
         t = strip_ref(t) if t else t
-        a = [self.ex(x, env, want=t)[0] for x in args]
+        a = [self.ex(x, env, want=t)[0] for x in args if x[0] != "closure"]
         it = t[0] if t and t[0] in INT_TYPES else None
         if name in ("checked_add", "checked_sub", "checked_mul") and it:
             op = {"checked_add": "+", "checked_sub": "-", "checked_mul": "*"}[name]
@@ -1117,6 +1338,36 @@ class Fn:
             return ("(%s.length : Int)" % s, ("usize",))
         if name == "is_empty":
             return ("%s.isEmpty" % s, ("bool",))
+        if name in ("iter", "copied", "into_iter", "as_slice"):
+            return (s, t)
+        if name == "enumerate":
+            return ("(Src.enumerate %s)" % s, ("slice", ("tuple", [("usize",), t[1] if (t and t[0] == "slice") else None])))
+        if name == "zip":
+            s2, t2 = self.ex(args[0], env)
+            t2 = strip_ref(t2) if t2 else None
+            return ("(List.zip %s %s)" % (s, s2), ("slice", ("tuple", [t[1] if (t and t[0] == "slice") else None, t2[1] if (t2 and t2[0] == "slice") else None])))
+        if name == "last":
+            return ("(List.getLast? %s)" % s, ("option", t[1] if (t and t[0] == "slice") else None))
+        if name == "is_none":
+            return ("(Option.isNone %s)" % s, ("bool",))
+        if name == "is_some":
+            return ("(Option.isSome %s)" % s, ("bool",))
+        if name == "position":
+            return ("(Src.position %s %s)" % (self.ex(args[0], env)[0], s), ("option", ("usize",)))
+        if name == "windows":
+            return (s, ("windows", t))
+        if name == "all" and t and t[0] == "windows":
+            # .windows(2).all(|x| …): the closure sees a two-element slice
+            cl = args[0]
+            env1 = dict(env)
+            env1[cl[1][0][0][1]] = ("slice", ("i64",))
+            body = self.ex(cl[3], env1)[0]
+            return ("(Src.windows2All (fun %s => %s) %s)" % (vname(cl[1][0][0][1]), body, s), ("bool",))
+        if name == "contains" and recv[0] == "range":
+            lo, _ = self.ex(recv[1], env)
+            hi, _ = self.ex(recv[2], env)
+            x, _ = self.ex(args[0], env)
+            return ("((decide (%s ≤ %s)) && (decide (%s ≤ %s)))" % (lo, x, x, hi), ("bool",))
         if name == "saturating_abs" and it:
             return ("(Src.sat_%s (Int.natAbs %s : Int))" % (it, s), t)
         if t and t[0] == "named" and (t[1], name) in EXTERN_METHODS:
@@ -1137,6 +1388,8 @@ class Fn:
             raise TransError("call of a non-path")
         path = f[1]
         name = path[-1]
+        if len(path) == 1 and name in env and env[name] and env[name][0] == "closure":
+            return ("(%s %s)" % (vname(name), " ".join(self.ex(x, env)[0] for x in args)), env[name][1])
         if name in ("Ok", "Err", "Some") and len(path) == 1:
             s, t = self.ex(args[0], env)
             return ("(%s %s)" % ({"Ok": "Except.ok", "Err": "Except.error", "Some": "some"}[name], s), None)
@@ -1240,7 +1493,7 @@ class Fn:
     # `ctx` describes what return / break mean here.
     def block(self, blk, env, k, value_only=False, ctx=None):
         stmts, tail = blk[1], blk[2]
-        return self.stmts(list(stmts), tail, env, k, ctx or {"ret": self.ret_plain, "value_only": value_only})
+        return self.stmts(list(stmts), tail, env, k, ctx or {"ret": self.ret_plain, "value_only": value_only, "fn_tail": not value_only})
 
     def ret_plain(self, text):
         return text
@@ -1288,6 +1541,9 @@ class Fn:
             return acc
         if not isinstance(node, tuple) or not node:
             return acc
+        if node[0] == "call" and node[1][0] == "path" and len(node[1][1]) == 1 and node[1][1][0] in self.sclosures:
+            # calling a closure that assigns captured variables assigns them
+            acc.extend(self.sclosures[node[1][1][0]])
         if node[0] == "assign":
             lhs = node[1]
             if lhs[0] == "path" and len(lhs[1]) == 1:
@@ -1312,6 +1568,13 @@ class Fn:
             p, t, init = s[1], self.resolve(s[2]), s[3]
             if init is None:
                 raise TransError("let without initialiser")
+            if init[0] == "closure" and p[0] == "pvar":
+                captured = []
+                for n in self.assigned(init[3], []):
+                    if n in env and n not in captured:
+                        captured.append(n)
+                if captured:
+                    return self.stateful_closure(p[1], init, captured, env, cont)
             return self.bind(p, t, init, env, cont, ctx)
         if kind == "assign":
             lhs, op, rhs = s[1], s[2], s[3]
@@ -1345,8 +1608,14 @@ class Fn:
             if "brk" not in ctx:
                 raise TransError("break outside a loop")
             return ctx["brk"](env)
-        v = "()" if e[1] is None else self.ex(e[1], env, want=self.ret)[0]
+        v = "()" if e[1] is None else self.ret_value(e[1], env)
         return ctx["ret"](v)
+
+    def ret_value(self, e, env):
+        """text of a returned value; with an output list, `Ok(())` is `Ok(list)`"""
+        if self.out and e == ("call", ("path", ["Ok"]), [("tuple", [])]) and not getattr(self, "in_closure", False):
+            return "(Except.ok %s)" % vname(self.out)
+        return self.ex(e, env, want=self.ret)[0]
 
     def tail(self, e, env, k, ctx):
         if e[0] in ("return", "break"):
@@ -1357,11 +1626,53 @@ class Fn:
             return self.branching(e, env, None, ctx, value_k=k)
         if e[0] == "try":
             return self.bind(("pvar", "__v"), None, e, env, lambda env2: k("__v", env2), ctx)
+        if ctx.get("tailmap"):
+            return ctx["tailmap"](e, env)
+        if ctx.get("fn_tail") and self.out:
+            return k(self.ret_value(e, env), env)
         s, t = self.ex(e, env, want=self.ret if not ctx.get("value_only") else None)
         return k(s, env)
 
+    def stateful_closure(self, name, cl, captured, env, cont):
+        """a closure that assigns captured variables M and returns Result<T, E>:
+        `fun M args => Except E (T × M)`; call sites rebind M"""
+        mt = vname(captured[0]) if len(captured) == 1 else "(" + ", ".join(vname(n) for n in captured) + ")"
+        env1 = dict(env)
+        saved = self.post
+        self.post = []
+        ps = [paren(self.pat(pp, env1, self.resolve(pt))) for pp, pt in cl[1]]
+        self.post = saved
+
+        def tailmap(e, env2):
+            if e[0] == "call" and e[1] == ("path", ["Ok"]):
+                return "(Except.ok (%s, %s))" % (self.ex(e[2][0], env2)[0], mt)
+            if e[0] == "call" and e[1] == ("path", ["Err"]):
+                return "(Except.error %s)" % self.ex(e[2][0], env2)[0]
+            return "(match %s with | .ok __v => Except.ok (__v, %s) | .error __e => Except.error __e)" % (self.ex(e, env2)[0], mt)
+        ctx2 = {"ret": lambda v: v, "tailmap": tailmap}
+        body = cl[3] if cl[3][0] == "block" else ("block", [], cl[3])
+        saved_in = getattr(self, "in_closure", False)
+        self.in_closure = True
+        text = self.stmts(list(body[1]), body[2], env1, lambda v, env2: v, ctx2)
+        self.in_closure = saved_in
+        env2 = dict(env)
+        env2[name] = ("sclosure", captured)
+        self.sclosures[name] = captured
+        return "let %s := fun %s %s =>\n%s\n%s" % (vname(name), paren(mt), " ".join(ps), indent(text), cont(env2))
+
     def bind(self, p, t, init, env, cont, ctx, keep_type=False):
         """let p = init; cont"""
+        if (init[0] == "try" and init[1][0] == "call" and init[1][1][0] == "path" and len(init[1][1][1]) == 1
+                and env.get(init[1][1][1][0]) and env[init[1][1][1][0]][0] == "sclosure"):
+            cname = init[1][1][1][0]
+            captured = env[cname][1]
+            mt = vname(captured[0]) if len(captured) == 1 else "(" + ", ".join(vname(n) for n in captured) + ")"
+            args = " ".join(self.ex(x, env)[0] for x in init[1][2])
+            env2 = dict(env)
+            self.post = []
+            okp = self.pat(p, env2, None)
+            self.post = []
+            return "match (%s %s %s) with\n| .ok (%s, %s) =>\n%s\n| .error e => %s" % (vname(cname), mt, args, okp, mt, indent(cont(env2)), ctx["ret"]("(Except.error e)"))
         # initialisers that may leave the function
         if init[0] == "try":
             s, ti = self.ex(init[1], env)
@@ -1391,7 +1702,7 @@ class Fn:
                 self.post = []
                 pt = self.pat(p, env2, t)
                 post, self.post = self.post, []
-                return "match %s with\n| .ret __r => %s\n| .val %s =>\n%s" % (paren_block(text), ctx["ret"]("__r"), paren(pt), indent("".join(l + "\n" for l in post) + cont(env2)))
+                return "match %s with\n| .ret __r => %s\n| .val %s =>\n%s" % (self.flow_ascribe(text), ctx["ret"]("__r"), paren(pt), indent("".join(l + "\n" for l in post) + cont(env2)))
 
             def value_k(vtext, env_in):
                 env2 = dict(env_in)
@@ -1408,6 +1719,9 @@ class Fn:
         self.post = []
         pt = self.pat(p, env2, ty)
         post, self.post = self.post, []
+        if p[0] == "pvar" and (init[0] == "lit" or (init[0] == "neg" and init[1][0] == "lit")):
+            # an integer literal: every integer type is Int (without this Lean may default the numeral to Nat)
+            pt = pt + " : Int"
         return "let %s := %s\n%s%s" % (pt, s, "".join(l + "\n" for l in post), cont(env2))
 
     @staticmethod
@@ -1478,7 +1792,12 @@ class Fn:
         out = []
         for head, blk, env_arm in blocks:
             out.append((head, self.stmts(list(blk[1]), None, env_arm, lambda v, env2: "Src.Flow.val %s" % tup, ctx2)))
-        return "match %s with\n| .ret __r => %s\n| .val %s =>\n%s" % (paren_block(self.emit_arms(kind, scrut, out)), ctx["ret"]("__r"), tup if names else "_", indent(cont(env)))
+        return "match %s with\n| .ret __r => %s\n| .val %s =>\n%s" % (self.flow_ascribe(self.emit_arms(kind, scrut, out)), ctx["ret"]("__r"), tup if names else "_", indent(cont(env)))
+
+    def flow_ascribe(self, text):
+        if getattr(self, "in_closure", False) or self.ret is None:
+            return paren_block(text)
+        return "(%s : Src.Flow %s _)" % (paren_block(text), paren(lean_ty(self.ret)))
 
     def flow_ctx(self, ctx):
         def no_break(env2):
@@ -1538,6 +1857,12 @@ class Fn:
             post, self.post = self.post, []
             return ("match", s, [(pt, self.with_post(post, e[3]), env1), ("_", e[4], dict(env))])
         if k == "match":
+            for i, (p, g, body) in enumerate(e[2]):
+                if g is not None and self.pat_names(p):
+                    # `p if g => b, rest…`  ==  `p => if g { b } else { match s { rest… } }, _ => match s { rest… }`
+                    rest = ("match", e[1], e[2][i + 1:])
+                    arms2 = list(e[2][:i]) + [(p, None, ("if", g, self.as_block(body), self.as_block(rest))), (("pwild",), None, rest)]
+                    return self.arms_of(("match", e[1], arms2), env)
             if any(g is not None or self.needs_chain(p) for p, g, _ in e[2]):
                 return self.chain_arms(e, env)
             s, t = self.ex(e[1], env)
@@ -1698,17 +2023,23 @@ class Fn:
                 names.append(n)
         if not names:
             raise TransError("for loop without state")
-        if self.contains_return(body):
-            raise TransError("return inside for")
+        has_ret = self.contains_return(body)
         st = vname(names[0]) if len(names) == 1 else "(" + ", ".join(vname(n) for n in names) + ")"
         its, tt = self.ex(it, env)
-        tt = strip_ref(tt)
+        tt = strip_ref(tt) if tt else None
         env1 = dict(env)
+        self.post = []
         pt = self.pat(p, env1, tt[1] if tt and tt[0] == "slice" else None)
-        ctx2 = {"ret": None, "brk": lambda env2: "Src.Step.stop %s" % st}
+        self.post = []
+        if has_ret:
+            ctx2 = {"ret": lambda v: "Src.Step.ret %s" % paren(ctx["ret"](v)), "brk": lambda env2: "Src.Step.stop %s" % st}
+        else:
+            ctx2 = {"ret": None, "brk": lambda env2: "Src.Step.stop %s" % st}
         self.check_no_shadow(body, env)
         b = self.stmts(list(body[1]), body[2], env1, lambda v, env2: "Src.Step.next %s" % st, ctx2)
         fn = "fun %s %s =>\n%s" % (paren(st), paren(pt), indent(b))
+        if has_ret:
+            return "match Src.forInR %s (%s) %s with\n| .inr __r => __r\n| .inl %s =>\n%s" % (its, fn, st, st, indent(cont(env)))
         return "let %s := Src.forIn %s (%s) %s\n%s" % (st, its, fn, st, cont(env))
 
 
@@ -1756,17 +2087,23 @@ class Translator:
             rel, params, ret, body, cfg = self.funcs[q]
             f = Fn(self, q, params, ret, body, cfg)
             ps = [(n, f.resolve(t)) for n, t in params]
+            if f.out:
+                # `&mut impl DateTimeList`: the pushed sequence, threaded through and returned
+                lt = ("slice", ("named", "FoundDateTimeKind"))
+                ps = [(n, lt if n == f.out else t) for n, t in ps]
+                f.ret = ("result", lt, f.ret[2] if f.ret[0] == "result" else ("named", "TzError"))
             self.sigs[q] = (ps, f.ret)
         out = []
         for q in self.order:
             rel, params, ret, body, cfg = self.funcs[q]
             f = Fn(self, q, params, ret, body, cfg)
+            f.ret = self.sigs[q][1]
             env = {}
             binders = []
             for n, t in self.sigs[q][0]:
                 env[n] = t
                 binders.append("(%s : %s)" % (vname(n), lean_ty(strip_ref(t))))
-            text = f.block(body, env, lambda v, env2: v)
+            text = f.block(f.body, env, lambda v, env2: v)
             out.append("-- %s `%s`\ndef %s %s: %s :=\n%s\n" % (rel, q.replace(".", "::"), q, "".join(b + " " for b in binders), lean_ty(f.ret), indent(text)))
         return out
 
@@ -1811,6 +2148,9 @@ CONFIG = {
         }),
         ("src/datetime/mod.rs", {
             "DateTime.from_timespec": {}, "DateTime.from_total_nanoseconds": {}, "DateTime.project": {}, "UtcDateTime.project": {},
+        }),
+        ("src/datetime/find.rs", {
+            "find_date_time": {"out_param": "found_date_time_list"},
         }),
     ]
 }
